@@ -177,13 +177,14 @@ Definition ax_blocked (s0 s' : st) (t : tid) (g : gid) : Prop :=
      s_host (scopes s' gs) = Some t /\ s_parent (scopes s' w') = Some gs /\ w' <> gs.
 
 Definition ax_result (s0 s' : st) (t : tid) (g : gid) : Prop :=
-  (s_active (scopes s' (g_scope (groups s0 g))) = false /\ k_ctl (tasks s' t) = CIdle) \/ ax_blocked s0 s' t g.
+  (s_active (scopes s' (g_scope (groups s0 g))) = false /\ k_ctl (tasks s' t) = CIdle /\ g_left (groups s' g) = true) \/
+  ax_blocked s0 s' t g.
 
 Lemma wof_result s t g ws exc : aexit_pre s t g ws ->
   ax_result s (fst (aexit_wait_or_finish s t g ws exc)) t g.
 Proof.
   intros P. destruct (g_tasks (groups s g)) as [|a l] eqn:Et.
-  - left. split; [apply wof_finishes; auto|apply wof_finishes_ctl; auto].
+  - left. refine (conj _ (conj _ _)); [apply wof_finishes; auto|apply wof_finishes_ctl; auto|apply wof_finishes_left; auto].
   - right. destruct (wof_blocks s t g ws exc P) as [w' [H1 [H2 [H3 [H4 [H5 H6]]]]]]; [rewrite Et; discriminate|].
     split; [exact H6|]. exists w'. split; [exists exc; left; exact H1|auto].
 Qed.
@@ -610,7 +611,7 @@ Proof.
   - pose proof (ax_facts_of s t g0 w0 R D Hax) as AF.
     assert (Hax0 : in_aexit s0 t g0 w0) by (unfold in_aexit in *; now rewrite Et).
     assert (AF0 : ax_facts s0 t g0 w0) by (unfold ax_facts, owns in *; now rewrite Et, Es, Eg, En).
-    destruct (resume_aexit_result s0 t fo g0 w0 W Hax0 AF0) as [[_ Hc]|[GL [w' [Hax2 [A2 [H2 [P2 N2]]]]]]].
+    destruct (resume_aexit_result s0 t fo g0 w0 W Hax0 AF0) as [[_ [Hc _]]|[GL [w' [Hax2 [A2 [H2 [P2 N2]]]]]]].
     + exfalso. destruct Hax' as [exc [H|H]]; congruence.
     + assert (Egw : g = g0 /\ w = w').
       { destruct Hax' as [e1 [H1|H1]]; destruct Hax2 as [e2 [H3|H3]]; rewrite H1 in H3; first [discriminate|injection H3; auto]. }
@@ -665,8 +666,8 @@ Proof.
       * rewrite H2. apply (d_f2 s D t g Hgr H1).
       * rewrite H3. cbn. pose proof (c_bsc s (m_c s M) t). lia.
     + assert (Hna : ~ alloc s t) by (unfold alloc; lia).
-      destruct (c_unalloc s (m_c s M) t Hna) as [_ [_ [Hg0 _]]].
-      destruct (NQ t (or_introl Hg0)) as [Q|[Q _]]; [contradiction|]. rewrite Q. cbn [fst].
+      destruct (c_unalloc s (m_c s M) t Hna) as [_ [_ [Hg0 [_ [_ [Hs0 _]]]]]].
+      destruct (NQ t (or_introl (conj Hg0 Hs0))) as [[Q _]|[Q _]]; [contradiction|]. rewrite Q. cbn [fst].
       destruct (RB g Hr) as [[H1 H2]|[H1 [[t0 [-> Hi]] H3]]].
       * rewrite H2. pose proof (Bg g). lia.
       * exfalso. destruct (group_new_facts s t0 Hi) as [Hnt _]. fold s' in Hnt.
